@@ -233,6 +233,15 @@ func H14_search() {
 				isElig[d] = true
 			}
 		}
+		if pre != nil {
+			// recorded finding (same root as the C16 one): on a cache entry created by an unfiltered open the
+			// filtered search does not keep excluded documents out when they are listed as eligible
+			for d := 0; d < nDocs; d++ {
+				if excl[d] && isElig[d] && vSkipKnown("C14-filtered-search-on-warm-cache-ignores-exclusions") {
+					return
+				}
+			}
+		}
 		pl, err := vi.SearchWithFilter(q, k, elig, nil)
 		vAssert(err == nil, "search-err")
 		sCheckVecResult(pl, vecs, sim, q, k, func(d uint64) bool { return !excl[d] && isElig[d] }, "f-")
@@ -262,11 +271,11 @@ func H14_search() {
 // H15_vecmerge: merged vector index = survivors' vectors under the new numbering.
 func H15_vecmerge() {
 	sim := index.EuclideanDistance
-	n0 := 1 + vChoice("n0", 2)
-	n1 := 1 + vChoice("n1", 2)
+	n0 := 1 + vChoice("n0", vParam("maxDocs", 2))
+	n1 := 1 + vChoice("n1", vParam("maxDocs", 2))
 	docs0, vecs0 := vGenVecBatch("a", n0, sim)
 	docs1, vecs1 := vGenVecBatch("b", n1, sim)
-	s0 := vBuildInput(docs0, DefaultChunkMode, vBool("reopen0"), vP("in0.zap"))
+	s0 := vBuildInput(docs0, DefaultChunkMode, vParam("reopen", 1) == 1 && vBool("reopen0"), vP("in0.zap"))
 	s1 := vBuildInput(docs1, DefaultChunkMode, false, vP("in1.zap"))
 	d0, b0 := vDropBitmap("drop0_", n0)
 	d1, b1 := vDropBitmap("drop1_", n1)
